@@ -1,5 +1,5 @@
 """F11 probe: the FAST writer does not hold back the next command while a confirmation is outstanding.
-Run: cd /repo && /venv/bin/python /verif/findings/probes/probe_f11_fast_pause.py"""
+Run: PYTHONPATH=/repo /venv/bin/python /verif/findings/probes/probe_f11_fast_pause.py"""
 import asyncio, logging
 from mpf.platforms.fast.communicators.base import FastSerialCommunicator
 
